@@ -39,7 +39,7 @@ CFG = {
 }
 META = {
     "technique": "Lean 4 proof (invariants of a small-step model of Feed over ALL interleavings) tied to aqua/event by trace validation of scheduled runs",
-    "text": "Theorems cases_is_active_prefix, exactly_once, at_most_once, nsent_correct, common_order, channel_fifo, no_delivery_after_unsubscribe, "
+    "text": "Theorems cases_is_active_prefix, exactly_once, at_most_once, nsent_correct, common_order, channel_fifo, no_delivery_after_unsubscribe, placement_only_to_subscribers_during_send, "
             "never_panics, token_exclusive, quiescent_membership and the progress statements hold for every reachable state of the Lean transition system "
             "of Feed (any number of senders, subscribers, removers, receivers); every run re-checks them and drives the real event.Feed through thousands "
             "of perturbed schedules whose observed histories must satisfy the same Spec (judged in Go and by the compiled Lean acceptor).",
